@@ -260,6 +260,11 @@ def check_text(labels, level=2):
                         probs.append(("C01/style-relativize/means-other-name", "%r relativized to %r written %r denotes %r" % (
                             labels, o, ts, back)))
                     expect_text(probs, "C01/style-relativize", ts, o, exp, "NameStyle(relativize=True)")
+                    # the relativized name is not absolute: omit_final_dot has nothing to omit
+                    ts2 = n.to_text(style=dns.name.NameStyle(origin=on, relativize=True, omit_final_dot=True))
+                    if ts2 != ts and len(labels) > len(o):
+                        probs.append(("C01/style-relativize/omit_final_dot-changes-relative-name",
+                                      "%r relativized to %r: %r, with omit_final_dot %r" % (labels, o, ts, ts2)))
                 except Exception as e:
                     probs.append(("C01/style-relativize/" + crash_sig(e), "%r origin %r: %s" % (labels, o, e)))
             if not absolute:
@@ -277,6 +282,10 @@ def check_text(labels, level=2):
                             probs.append(("C01/style-derelativize/means-other-name", "%r derelativized to %r written %r denotes %r" % (
                                 labels, o, ts, back)))
                         expect_text(probs, "C01/style-derelativize", ts, None, exp, "NameStyle(relativize=False)")
+                        ts2 = n.to_text(style=dns.name.NameStyle(origin=on, relativize=False, omit_final_dot=True))
+                        if exp != R.ROOT and ts2 + "." != ts:
+                            probs.append(("C01/style-derelativize/omit_final_dot", "%r derelativized to %r: %r, with omit_final_dot %r" % (
+                                labels, o, ts, ts2)))
                 except dns.exception.DNSException as e:
                     if exp is not None:
                         probs.append(("C01/style-derelativize/rejected/" + type(e).__name__, "%r origin %r" % (labels, o)))
